@@ -1287,7 +1287,10 @@ func (client *client) disconnectHandler(dis *packets.Disconnect) *codes.Error {
 	}
 	client.disconnect = dis
 	// 不发送will message
-	client.cleanWillFlag = true
+	// DISCONNECT with Reason Code 0x04 (Disconnect with Will Message) asks for the will to be published.
+	if !(client.version == packets.Version5 && dis.Code == codes.DisconnectWithWillMessage) {
+		client.cleanWillFlag = true
+	}
 	return nil
 }
 
